@@ -127,10 +127,20 @@ def start(app, env=None, events_meta=None) -> Recorder:
     return _REC[0]
 
 
+_LAST = [None]
+
+
 def stop():
     r = _REC[0]
     _REC[0] = None
+    if r is not None:
+        _LAST[0] = r
     return r
+
+
+def last():
+    """The recorder of the most recently stopped trace (for audits after a crash)."""
+    return _LAST[0]
 
 
 def _wrap(cls, name, before=None, after=None):
@@ -372,6 +382,45 @@ def audit_db(r: Recorder, app) -> dict:
                              q("SELECT julian_date, target_id, sensor_id, COUNT(*) FROM missed_observations GROUP BY julian_date, target_id, sensor_id"))
         out["tasks"] = sorted([kof(jd), T(t), S(s), n] for jd, t, s, n in
                               q("SELECT julian_date, target_id, sensor_id, COUNT(*) FROM tasks GROUP BY julian_date, target_id, sensor_id"))
+        # --- value-level clauses of C09 (booleans / counts, evaluated here with plain SQL) ---
+        from datetime import datetime as _dt
+        eps = q("SELECT julian_date, timestampISO FROM epochs ORDER BY julian_date")
+        ok = len({e[0] for e in eps}) == len(eps) and len({e[1] for e in eps}) == len(eps)
+        for (jd, ts), nxt in zip(eps, eps[1:] + [None]):
+            t = _dt.fromisoformat(ts)
+            jd_ind = (t - _dt(2000, 1, 1, 12)).total_seconds() / 86400.0 + 2451545.0   # independent of resonaate
+            ok = ok and abs(jd_ind - float(jd)) < 1e-8
+            if nxt is not None:
+                ok = ok and float(nxt[0]) > float(jd) and _dt.fromisoformat(nxt[1]) > t
+        out["epochs_ok"] = bool(ok)
+        dangling = 0
+        for tbl, cols in (("truth_ephemerides", ["agent_id"]), ("estimate_ephemerides", ["agent_id"]),
+                          ("observations", ["sensor_id", "target_id"]), ("missed_observations", ["sensor_id", "target_id"]),
+                          ("tasks", ["sensor_id", "target_id"]), ("detected_maneuvers", ["target_id"]),
+                          ("filterstep", ["target_id"])):
+            dangling += q(f"SELECT COUNT(*) FROM {tbl} x LEFT JOIN epochs e ON x.julian_date = e.julian_date "
+                          f"WHERE e.julian_date IS NULL")[0][0]
+            for c in cols:
+                dangling += q(f"SELECT COUNT(*) FROM {tbl} x WHERE x.{c} NOT IN (SELECT unique_id FROM agents)")[0][0]
+        out["dangling"] = int(dangling)
+        # read-back: the rows of the current epoch equal the states the simulation holds (exact float equality)
+        rb = True
+        for aid, ag in list(app.target_agents.items()) + list(app.sensor_agents.items()):
+            rows = q(f"SELECT pos_x_km, pos_y_km, pos_z_km, vel_x_km_p_sec, vel_y_km_p_sec, vel_z_km_p_sec, julian_date "
+                     f"FROM truth_ephemerides WHERE agent_id = {int(aid)}")
+            cur = [row for row in rows if kof(row[6]) == r.k]
+            held = [float(x) for x in np.asarray(ag.eci_state, float).ravel()]
+            rb = rb and len(cur) == 1 and [float(x) for x in cur[0][:6]] == held
+        if not app.scenario_config.propagation.truth_simulation_only:
+            ccols = ", ".join(f"covar_{i}{j}" for i in range(6) for j in range(6))
+            for aid, est in app.estimate_agents.items():
+                rows = q(f"SELECT pos_x_km, pos_y_km, pos_z_km, vel_x_km_p_sec, vel_y_km_p_sec, vel_z_km_p_sec, {ccols}, julian_date "
+                         f"FROM estimate_ephemerides WHERE agent_id = {int(aid)}")
+                cur = [row for row in rows if kof(row[-1]) == r.k]
+                held = [float(x) for x in np.asarray(est.state_estimate, float).ravel()] + \
+                       [float(x) for x in np.asarray(est.error_covariance, float).ravel()]
+                rb = rb and len(cur) == 1 and [float(x) for x in cur[0][:-1]] == held
+        out["readback"] = bool(rb)
     return out
 
 
